@@ -31,7 +31,7 @@ func init() {
 		},
 		Real:       []string{"db", "db/mem", "db/fs (compiled against the simulated os)", "db/postgres", "lang"},
 		Stub:       []string{"store client (seeded operation generator)", "OS filesystem (simfs)", "Postgres server (pgfake)"},
-		FaultKinds: []string{"caller_buffer_reuse", "close_in_use", "reopen", "lookup_miss"},
+		FaultKinds: []string{"fs_write_enospc", "caller_buffer_reuse", "close_in_use", "reopen", "lookup_miss"},
 	})
 }
 
@@ -83,7 +83,7 @@ func runC10(c *core.Ctx) *core.Outcome {
 	for i := 0; i < nops; i++ {
 		t.Begin("op")
 		hi := t.Int(2)
-		op := t.Weighted(3, 2, 2, 4, 10, 10, 2, 1, 1)
+		op := t.Weighted(3, 2, 2, 4, 10, 10, 2, 1, 1, 1)
 		if i < 2 {
 			op = 0
 			hi = i
@@ -110,6 +110,7 @@ func runC10(c *core.Ctx) *core.Outcome {
 		}
 		binVal := t.Chance(1, 4)
 		emptyVal := t.Chance(1, 10)
+		bigVal := t.Chance(1, 60) // a value around or well beyond 64 KiB (a saved session with large symbols is such a value)
 		dumpPfx := []string{"", "f", "fo", "foo", "b", "zz", "w"}[t.Int(7)]
 		if focusW && t.Chance(1, 2) {
 			dumpPfx = "w"
@@ -232,12 +233,16 @@ func runC10(c *core.Ctx) *core.Outcome {
 			switch {
 			case emptyVal:
 				val = []byte{}
+			case bigVal:
+				n := []int{65535, 65536, 65537, 70000, 131073, 300000}[valN%6]
+				val = bytes.Repeat([]byte(fmt.Sprintf("V%d|", valN)), n/3+1)[:n]
+				o.Probes["value_of_64KiB_or_more"]++
 			case binVal:
 				val = []byte{0, 0xff, byte(valN), 0x0a, 0x2e, byte(valN >> 8), 0x80}
 			default:
 				val = []byte(fmt.Sprintf("v%d-%s-%s", valN, typeNames[rc.pfx], key))
 			}
-			trace = append(trace, fmt.Sprintf("h%d.Put(%s,%q) ctxlang=%q [type=%s sid=%q lang=%q]", hi, key, val, ctxLg, typeNames[rc.pfx], rc.sid, rc.lang))
+			trace = append(trace, fmt.Sprintf("h%d.Put(%s,%s) ctxlang=%q [type=%s sid=%q lang=%q]", hi, key, shortVal(val), ctxLg, typeNames[rc.pfx], rc.sid, rc.lang))
 			locked := rc.pfx&rc.lock != 0
 			okCount, errCount := 0, 0
 			var firstErr error
@@ -354,10 +359,10 @@ func runC10(c *core.Ctx) *core.Outcome {
 				}
 				if ok {
 					if err != nil {
-						return fail("get-lost-value", i, "%s on %s failed (%v); the latest successful write was %q", trace[len(trace)-1], m.name, err, want)
+						return fail("get-lost-value", i, "%s on %s failed (%v); the latest successful write was %s", trace[len(trace)-1], m.name, err, shortVal(want))
 					}
 					if !bytes.Equal(got, want) {
-						return fail("get-wrong-value", i, "%s on %s returned %q; the latest successful write was %q", trace[len(trace)-1], m.name, got, want)
+						return fail("get-wrong-value", i, "%s on %s returned %s; the latest successful write was %s", trace[len(trace)-1], m.name, shortVal(got), shortVal(want))
 					}
 					if reuseBuffers {
 						// ... and does what it likes with the slice a Get handed out
@@ -441,7 +446,7 @@ func runC10(c *core.Ctx) *core.Outcome {
 						return fail("dump-missing", i, "%s on %s did not list key %q (listed %v)", trace[len(trace)-1], m.name, k, sortedKeys(got))
 					}
 					if !bytes.Equal(v, want[k]) {
-						return fail("dump-wrong-value", i, "%s on %s listed key %q with value %q, stored %q", trace[len(trace)-1], m.name, k, v, want[k])
+						return fail("dump-wrong-value", i, "%s on %s listed key %q with value %s, stored %s", trace[len(trace)-1], m.name, k, shortVal([]byte(v)), shortVal([]byte(want[k])))
 					}
 				}
 				for _, k := range sortedKeys(got) {
@@ -481,6 +486,53 @@ func runC10(c *core.Ctx) *core.Outcome {
 			}
 			// the type, session and language selected on the handle are not the connection's: they stay
 			o.Faults["close_in_use"]++
+		case 9: // Put on the file-system backends while the disk fills up: the write stores a part and fails
+			if rc.pfx == 0 || rc.pfx&rc.lock != 0 {
+				trace = append(trace, fmt.Sprintf("h%d.Put(%s) on a full disk [skipped: no type selected or type locked]", hi, key))
+				continue
+			}
+			valN++
+			val := []byte(fmt.Sprintf("w%d-%s-%s-%s", valN, typeNames[rc.pfx], key, strings.Repeat("z", t.Range(0, 40))))
+			fits := t.Int(len(val))
+			trace = append(trace, fmt.Sprintf("h%d.Put(%s,%q) ctxlang=%q while the disk takes only %d more bytes [type=%s sid=%q lang=%q]", hi, key, val, ctxLg, fits, typeNames[rc.pfx], rc.sid, rc.lang))
+			want, had := ref.get(rc, ctxLg, key)
+			for _, m := range meds {
+				if m.disk == nil || (key == c10LongKey && m.kind == world.BackFsBin) || m.tooLong[refKey(rc.pfx, rc.sid, key, "")] {
+					continue
+				}
+				h := m.handles[hidx(m)]
+				before := m.disk.WriteFails
+				m.disk.FailNextWrite, m.disk.FailShort = true, fits
+				var err error
+				pm, pat := world.Guard(func() { err = h.Put(ctxWithLang(ctxLg), []byte(key), append([]byte{}, val...)) })
+				m.disk.FailNextWrite = false
+				if pm != "" {
+					return fail("panic:"+pat, i, "%s on %s panicked: %s", trace[len(trace)-1], m.name, pm)
+				}
+				if m.disk.WriteFails == before {
+					// refused before anything was written (a name the file system does not take): no fault was injected
+					if err == nil {
+						panic("C10 harness: a Put that writes nothing returned no error")
+					}
+					continue
+				}
+				o.Faults["fs_write_enospc"]++
+				got, gerr := h.Get(ctxWithLang(ctxLg), []byte(key))
+				if err == nil {
+					// acknowledged although the disk refused part of it: only right if the value is there, whole
+					if gerr != nil || !bytes.Equal(got, val) {
+						return fail("failed-write-acknowledged", i, "%s on %s returned no error although the disk stored only %d of %d bytes; Get now returns %s (err %v)", trace[len(trace)-1], m.name, fits, len(val), shortVal(got), gerr)
+					}
+					panic("C10 harness: a backend that completes a write after ENOSPC is not modelled")
+				}
+				// reported as failed: it is not the latest successful write, the one before it still is
+				if had && (gerr != nil || !bytes.Equal(got, want)) {
+					return fail("failed-write-changed-value", i, "%s on %s failed (%v), as it should; Get now returns %s (err %v), the latest successful write was %s", trace[len(trace)-1], m.name, err, shortVal(got), gerr, shortVal(want))
+				}
+				if !had && gerr == nil {
+					return fail("failed-write-left-value", i, "%s on %s failed (%v), as it should; Get now returns %s for a key that was never written successfully", trace[len(trace)-1], m.name, err, shortVal(got))
+				}
+			}
 		}
 		o.States = append(o.States, h64(trace[len(trace)-1]))
 	}
@@ -493,4 +545,12 @@ func runC10(c *core.Ctx) *core.Outcome {
 	}
 	o.TraceHash = h64(strings.Join(trace, ";"))
 	return o
+}
+
+// shortVal quotes a value for a trace line; long ones are abbreviated.
+func shortVal(v []byte) string {
+	if len(v) <= 64 {
+		return fmt.Sprintf("%q", v)
+	}
+	return fmt.Sprintf("%q...(%d bytes)", v[:24], len(v))
 }
